@@ -48,6 +48,19 @@ theorem insert_treats_keys_independently (null : α) (ss : List Nat) (sn sd : Op
         kc'.get k = kc0.get k) :=
   Src.insert_try_per_key null ss sn sd bases kc0 kc' os on oc dim valid sv oks hv hsv hk hnd h
 
+/-- **the `try` block of `_insert` on the dictionaries of a model extension treats keys independently** — `insert_try_per_key`
+    with its premises discharged: `other` any model extension with 3 to 5 axes and unique keys, `self` any per-key view with
+    unique keys -/
+theorem insert_treats_keys_independently_on_model_extension [DecidableEq α] (null : α) (ss : List Nat) (sn sd : Option Nat) (bases : List String)
+    (kc0 kc' : KContent κ α) (hk : (kc0.map (·.1)).Nodup) (sv : List Cls) (hsv : Py.get_valid_classes ss = .ok sv)
+    (o : DExt κ α) (h3 : 3 ≤ o.shape.length) (h5 : o.shape.length ≤ 5) (hn : (o.ents.map (·.1)).Nodup)
+    (on : Option Nat) (dim : Nat)
+    (h : Py.insert_try null ss sn sd bases kc0 o.shape on (toContent o) dim = .ok kc') :
+    (∀ c k, c ∈ validClasses o.shp → k ∈ roundKeys (toContent o) (missingOn sv kc0 o) c →
+        keyStep null ss sn sd bases o.shape on (validClasses o.shp) (toContent o) dim c k (kc0.get k) = .ok (kc'.get k)) ∧
+    (∀ k, (∀ c ∈ validClasses o.shp, k ∉ roundKeys (toContent o) (missingOn sv kc0 o) c) → kc'.get k = kc0.get k) :=
+  Src.insert_try_per_key_on_ext null ss sn sd bases kc0 kc' hk sv hsv o h3 h5 hn on dim h
+
 /-- the translator translated every function of this group (dcmmeta.py: _insert as a whole) -/
 theorem translator_complete_insertall : Gen.codeMissing_insertall = [] := rfl
 
